@@ -53,44 +53,119 @@ CATEGORIES = ["os_tree", "packages", "repository", "isos", "images", "jigdos",
 COMPOSE_SUFFIX = {"production": "", "ci": ".ci", "nightly": ".n", "test": ".t", "development": ".d"}
 
 
+# ---- documented enumerations (property text: 9 release types, 5 compose types, 10 label names, 4 variant types, 14 categories);
+# the generator enumerates the UNION of these and the code's own tables, so a value the code lost is still generated
+DOC_RELEASE_TYPES = ["fast", "ga", "updates", "updates-testing", "eus", "aus", "els", "tus", "e4s"]
+DOC_COMPOSE_TYPES = ["test", "ci", "nightly", "production", "development"]
+DOC_LABEL_NAMES = ["EA", "DevelPhaseExit", "InternalAlpha", "Alpha", "InternalSnapshot", "Beta", "Snapshot", "RC", "Update", "SecurityFix"]
+DOC_VARIANT_TYPES = ["variant", "optional", "addon", "layered-product"]
+
+# ---- boundary pools (GENERATOR_AUDIT.md section A); every pool is used round-robin, so each entry is reached
+LONG = "L" + "o" * 300 + "ng"
+TEXT_BOUNDARY = ["", " ", "\xa0", "a  b", " lead", "trail ", "tab\there", "a-b", "a.b", "a:b", "a/b", "a@b", "a,b;c=d#e%f[g]h", 'q"uo\'te\\back',
+                 "--", "..", "//", "\xe9ł日本", "٣７", "\U0001f600 astral", LONG, "None", "null", "0", "False", "1.0", " sep", "\x7f",
+                 "line\nfeed", "UPPER", "upper", "Upper"]
+VERSION_BOUNDARY = ["0", "00", "1.0", "1" * 300, "1.2.3.4.5.6.7.8.9.10", "٣", "７.1", " 1", "-1", ".5", "None", "null", "False", "v", "Rawhide\n",
+                    "1.2\n", "x\ty", "\xa0", " ", "a@b", "a-b-c", "r#;=,:[]'\"\\%", LONG, "RAWHIDE", "rawhide", "10", "9.10"]
+DATE_BOUNDARY = ["00000000", "99999999", "٢٠٢٠٠١٠١", "２０２００１０１", "20200101\n", "19700101", "20200229"]
+RESPIN_POOL = [0, 1, -1, 2, 10, 12, 99, 2 ** 31, 2 ** 32 + 7, 2 ** 53 + 1, 2 ** 63 - 1, 10 ** 7, 10 ** 8, -3, 10 ** 20 + 7]
+LABEL_VERSION_BOUNDARY = ["0.0", "10.10", "1.0\n", "１.０", "1" * 40 + ".0", "007.00", "1.23"]
+ARCH_BOUNDARY = ["ppc", "ppc64", "ppc64le", "X86_64", "x86_64", "noarch", "nosrc", "\xe1rch", "a-b", "a/b", "a b", "", "A" * 300, "None", "0", "i686", "I386"]
+ID_BOUNDARY = ["a", "7", "Z" * 300, "S\n", "0a", "A0"]
+FOREIGN_CATEGORIES = ["OS_TREE", "identity2", "source_isossource_jigdos", "os_tree "]
+PATH_SHAPES = [lambda b: b + "/", lambda b: b + "//", lambda b: b.replace("/", "//", 1), lambda b: "./" + b, lambda b: "/" + b,
+               lambda b: b + "/.", lambda b: "../" + b, lambda b: " " + b, lambda b: b + " ", lambda b: b.replace("/", " / ", 1),
+               lambda b: b + "/\xe9t\xe9/日本", lambda b: b + "/\U0001f600", lambda b: b + "/" + "x" * 300, lambda b: "/",
+               lambda b: "//", lambda b: b + '/q"uo\\te', lambda b: b + "\t", lambda b: b.upper(), lambda b: b + "/%(arch)s/$basearch",
+               lambda b: b + "\n", lambda b: "0", lambda b: " ", lambda b: b + "/" + b.split("/")[0], lambda b: b + "/" + b,
+               lambda b: b + "/a#b;c=d,e:f@g[h]'i", lambda b: "None", lambda b: "null", lambda b: "False", lambda b: "1.0", lambda b: "\xa0",
+               lambda b: b + "/../" + b.split("/")[-1], lambda b: b.lower(), lambda b: b + "/٣７"]
+
+
 class Gen(object):
-    """stateful generator: enumeration values are used round-robin so that every documented value is covered"""
+    """stateful generator: enumeration values AND boundary pools are used round-robin so that every entry is covered"""
 
     def __init__(self, rng, tier="quick"):
         self.rng = rng
         self.tier = tier
         self.n = 0
         self.T = tables()
+        self.T["release_types"] = self.T["release_types"] + [x for x in DOC_RELEASE_TYPES if x not in self.T["release_types"]]
+        self.T["compose_types"] = self.T["compose_types"] + [x for x in DOC_COMPOSE_TYPES if x not in self.T["compose_types"]]
+        self.T["label_names"] = self.T["label_names"] + [x for x in DOC_LABEL_NAMES if x not in self.T["label_names"]]
+        self.T["variant_types"] = self.T["variant_types"] + [x for x in DOC_VARIANT_TYPES if x not in self.T["variant_types"]]
+        self.T["categories"] = self.T["categories"] + [x for x in CATEGORIES if x not in self.T["categories"]]
+        self.cnt = {}
 
     def rr(self, table, salt=0):
         return table[(self.n + salt) % len(table)]
 
+    def nxt(self, pool_name, pool):
+        """next entry of a boundary pool (round-robin per pool)"""
+        k = self.cnt.get(pool_name, 0)
+        self.cnt[pool_name] = k + 1
+        return pool[k % len(pool)]
+
+    def text(self, plain, attr, p=0.3, nonblank=False):
+        """a free-text attribute: mostly from the plain pool, otherwise the next boundary value"""
+        if self.rng.random() >= p:
+            return self.rng.choice(plain)
+        v = self.nxt("text:" + attr, TEXT_BOUNDARY)
+        return "n" if (nonblank and not v) else v
+
+    def version(self):
+        return self.nxt("version", VERSION_BOUNDARY) if self.rng.random() < 0.3 else self.rng.choice(VERSION_POOL)
+
     def release(self, salt=0):
         r = self.rng
-        return {"name": r.choice(NAME_POOL), "short": r.choice(SHORT_POOL), "version": r.choice(VERSION_POOL),
+        return {"name": self.text(NAME_POOL, "name"), "short": self.text(SHORT_POOL, "short"), "version": self.version(),
                 "type": self.rr(self.T["release_types"], salt), "is_layered": False, "internal": r.random() < 0.3}
 
     def path_value(self, base):
         """a path value: mostly plain, otherwise one of the boundary spellings (paths are opaque strings to the format)"""
-        r = self.rng
-        if r.random() < 0.6:
+        if self.rng.random() < 0.6:
             return base
-        k = self.pathn = getattr(self, "pathn", 0) + 1
-        shapes = [lambda b: b + "/", lambda b: b + "//", lambda b: b.replace("/", "//", 1), lambda b: "./" + b, lambda b: "/" + b,
-                  lambda b: b + "/.", lambda b: "../" + b, lambda b: " " + b, lambda b: b + " ", lambda b: b.replace("/", " / ", 1),
-                  lambda b: b + "/\xe9t\xe9/\u65e5\u672c", lambda b: b + "/\U0001f600", lambda b: b + "/" + "x" * 300, lambda b: "/",
-                  lambda b: "//", lambda b: b + '/q"uo\\te', lambda b: b + "\t", lambda b: b.upper(), lambda b: b + "/%(arch)s/$basearch",
-                  lambda b: b + "\n", lambda b: "0", lambda b: " "]
-        return shapes[k % len(shapes)](base)
+        return self.nxt("path", PATH_SHAPES)(base)
 
-    def variant(self, parent, depth, maxdepth, counter):
+    def variant_id(self, counter, siblings):
         r = self.rng
         counter[0] += 1
-        vid = "V%d%s" % (counter[0], r.choice(["", "x", "Z", "9"]))
+        roll = r.random()
+        used = set(x["id"] for x in siblings)
+        cand = None
+        if roll < 0.08:
+            cand = self.nxt("id", ID_BOUNDARY)
+        elif roll < 0.16 and siblings:
+            cand = siblings[-1]["id"].swapcase()                 # a sibling key that differs only in case
+        elif roll < 0.24 and siblings and "\n" not in siblings[-1]["id"]:
+            cand = siblings[-1]["id"] + "x"                      # a sibling id extended (one UID a prefix of the other)
+        while cand is None or cand in used or cand in self.all_ids:
+            # the leading letter varies, so the insertion order of siblings differs from every sorted order
+            cand = "%s%d%s" % (r.choice(["V", "a", "Z", "b", "0", "m"]), counter[0], r.choice(["", "x", "Z", "q"]))
+            counter[0] += 1
+        self.all_ids.add(cand)
+        return cand
+
+    def arches(self, parent):
+        r = self.rng
+        if parent is not None:
+            pool = sorted(parent["arches"])
+            return r.sample(pool, r.randint(1, len(pool)))
+        out = r.sample(ARCH_POOL, r.randint(1, len(ARCH_POOL)))
+        if r.random() < 0.35:
+            for _ in range(r.randint(1, 3)):
+                a = self.nxt("arch", ARCH_BOUNDARY)
+                if a not in out:
+                    out.insert(r.randint(0, len(out)), a)
+        return out
+
+    def variant(self, parent, depth, maxdepth, counter, siblings=()):
+        r = self.rng
+        vid = self.variant_id(counter, list(siblings))
         dashed = False
         if parent is None:
-            if r.random() < 0.3 and len(vid) > 1:
-                k = r.randint(1, len(vid) - 1)
+            if r.random() < 0.3 and len(vid) > 1 and "\n" not in vid:
+                k = r.randint(1, min(len(vid) - 1, 6))
                 uid = vid[:k] + "-" + vid[k:]
                 dashed = True
             else:
@@ -99,9 +174,8 @@ class Gen(object):
             uid = parent["uid"] + "-" + vid
         vtypes = self.T["variant_types"]
         vtype = vtypes[(self.n + counter[0]) % len(vtypes)] if r.random() < 0.7 else r.choice(vtypes)
-        pool = sorted(parent["arches"]) if parent is not None else ARCH_POOL
-        arches = r.sample(pool, r.randint(1, len(pool)))
-        v = {"key": vid, "id": vid, "uid": uid, "name": r.choice(NAME_POOL[:8]).strip() or "n", "type": vtype, "arches": arches,
+        arches = self.arches(parent)
+        v = {"key": vid, "id": vid, "uid": uid, "name": self.text(NAME_POOL, "vname", nonblank=True) or "n", "type": vtype, "arches": arches,
              "paths": {}, "release": None, "variants": []}
         if vtype == LP:
             v["release"] = self.release(counter[0])
@@ -118,19 +192,42 @@ class Gen(object):
         else:
             chosen = r.sample(cats, r.randint(1, min(6, len(cats))))
             chosen.append(cats[(self.n + counter[0]) % len(cats)])      # round-robin: every category incl. the last
+        if r.random() < 0.08:
+            chosen.append(self.nxt("foreigncat", FOREIGN_CATEGORIES))    # an attribute that is none of the categories: ignored
         for cat in chosen:
             d = v["paths"].setdefault(cat, {})
-            for a in r.sample(ARCH_POOL, r.randint(1, 4)) + [r.choice(arches)]:
-                roll = r.random()
-                d[a] = "" if roll < 0.12 else self.path_value("%s/%s/%s" % (uid, a, cat))
+            bucket = r.random()
+            if bucket < 0.06:
+                continue                                                  # an empty bucket that still exists
+            pool = ARCH_POOL + [a for a in arches if a not in ARCH_POOL]
+            picks = r.sample(pool, r.randint(1, min(4, len(pool)))) + ([r.choice(arches)] if bucket > 0.12 else [])
+            for a in picks:
+                if bucket < 0.12 and a in arches:
+                    d[a] = ""                                             # a bucket holding nothing that is stored
+                else:
+                    d[a] = "" if r.random() < 0.12 else self.path_value("%s/%s/%s" % (uid[:40], a[:20], cat))
         if depth < maxdepth and not (dashed and r.random() < 0.7):
             for _ in range(r.choice([0, 0, 1, 2, 3] if depth < 3 else [0, 1])):
-                v["variants"].append(self.variant(v, depth + 1, maxdepth, counter))
+                v["variants"].append(self.variant(v, depth + 1, maxdepth, counter, v["variants"]))
         return v
+
+    def compose_id(self, short, version, date, ctype, respin):
+        r = self.rng
+        base = "%s-%s-%s%s.%d" % (short, version, date if date.isascii() and "\n" not in date else "20200101", COMPOSE_SUFFIX.get(ctype, ""), abs(respin))
+        base = base.replace("\n", "")
+        if r.random() >= 0.3:
+            return base
+        other_date = "%08d" % r.randrange(10 ** 8)
+        shapes = ["20200101", " 20200101 ", "x%s.n.1-extra" % other_date, "F-22-99999999", "\xe9日-%s.t.3" % other_date,
+                  "٢٠٢٠٠١٠١", base + "\n", LONG + other_date, 'q"\\-%s' % other_date,
+                  "F-22-%s.nightly.7" % other_date, "F-22-%s.ci.1" % other_date, "00000000.0", "%s%s" % (other_date, other_date),
+                  "a\t%s" % other_date]
+        return self.nxt("cid", shapes)                 # decoupled from compose.date / type / respin
 
     def spec(self):
         r = self.rng
         self.n += 1
+        self.all_ids = set()
         rel = self.release()
         base = None
         if r.random() < 0.4:
@@ -141,20 +238,83 @@ class Gen(object):
             b = self.release(5)                 # base product filled in although the release is not layered: not stored
             base = dict((k, b[k]) for k in ("name", "short", "version", "type"))
         ctype = self.rr(self.T["compose_types"])
-        date = "%08d" % r.randrange(10 ** 8)
-        respin = r.choice([0, 1, 2, 12, 99, 2 ** 53 + 1, -3, 10 ** 20 + 7])
-        cid = "%s-%s-%s%s.%d" % (rel["short"], rel["version"], date, COMPOSE_SUFFIX.get(ctype, ""), abs(respin))
+        date = self.nxt("date", DATE_BOUNDARY) if r.random() < 0.15 else "%08d" % r.randrange(10 ** 8)
+        respin = self.nxt("respin", RESPIN_POOL)
+        cid = self.compose_id(rel["short"], rel["version"], date, ctype, respin)
         labels = self.T["label_names"]
         label = None
         k = self.n % (len(labels) + 2)
         if k < len(labels):
-            label = "%s-%d.%d" % (labels[k], r.randrange(20), r.randrange(20))
+            ver = self.nxt("labelver", LABEL_VERSION_BOUNDARY) if r.random() < 0.25 else "%d.%d" % (r.randrange(20), r.randrange(20))
+            label = "%s-%s" % (labels[k], ver)
         final = r.random() < 0.5
         maxdepth = r.choice([1, 2, 3, 3, 4])
         counter = [0]
-        variants = [self.variant(None, 1, maxdepth, counter) for _ in range(r.randint(1, 3) if r.random() < 0.95 else 0)]
+        variants = []
+        for _ in range(r.choice([1, 2, 3, 3, 5]) if r.random() < 0.95 else 0):
+            variants.append(self.variant(None, 1, maxdepth, counter, variants))
         return {"compose": {"id": cid, "type": ctype, "date": date, "respin": respin, "label": label, "final": final},
                 "release": rel, "base_product": base, "variants": variants}
+
+    # ---- values the library accepts although they lie outside the typed model (bool is an int; `final` is not looked at
+    # without a label; a path is any truthy value): oracle only
+    def untyped(self, spec):
+        r = self.rng
+        s = copy.deepcopy(spec)
+        k = self.nxt("untyped", ["respin_bool", "final_odd", "path_nonstr", "path_falsy"])
+        vs = [v for v, _ in walk(s)]
+        if k == "respin_bool":
+            s["compose"]["respin"] = self.nxt("bool", [True, False])
+        elif k == "final_odd":
+            s["compose"]["label"] = None
+            s["compose"]["final"] = self.nxt("finalodd", [None, 0, 1, "yes", "", [], {"a": 1}, 0.0])
+        elif vs:
+            v = r.choice(vs)
+            cat = r.choice(CATEGORIES)
+            a = r.choice(v["arches"])
+            pool = [5, True, ["a", "b"], {"a": "b"}, 2.5] if k == "path_nonstr" else [None, 0, False, [], {}, 0.0]
+            v["paths"].setdefault(cat, {})[a] = self.nxt(k, pool)
+        return k, s
+
+    # ---- a short history of public mutations of an existing description (GENERATOR_AUDIT.md B2)
+    def history(self, spec):
+        r = self.rng
+        s = copy.deepcopy(spec)
+        ops = []
+        for _ in range(r.randint(1, 3)):
+            vs = walk(s)
+            kinds = ["set_label"] + (["set_path", "del_path", "add_variant", "del_variant", "add_arch"] if vs else ["add_variant"])
+            k = self.nxt("history", kinds) if vs else r.choice(kinds)
+            if k == "set_label":
+                lab = None if r.random() < 0.4 else "%s-%d.%d" % (self.rr(self.T["label_names"], len(ops)), r.randrange(9), r.randrange(9))
+                op = {"op": "set_label", "label": lab, "final": r.random() < 0.5}
+            elif k == "set_path":
+                v, _ = r.choice(vs)
+                a = r.choice(v["arches"] + ["mips"])
+                op = {"op": "set_path", "uid": v["uid"], "cat": r.choice(CATEGORIES), "arch": a, "path": self.path_value("new/%s" % a[:10])}
+            elif k == "del_path":
+                cands = [(v, c, a) for v, _ in vs for c, t in v["paths"].items() if c in CATEGORIES for a in t
+                         if a in v["arches"] and t[a]]          # a stored cell: present in the re-read object too
+                if not cands:
+                    continue
+                v, c, a = r.choice(cands)
+                op = {"op": "del_path", "uid": v["uid"], "cat": c, "arch": a}
+            elif k == "add_variant":
+                parent = r.choice([None] + [v for v, _ in vs if "\n" not in v["uid"]]) if vs else None
+                counter = [1000 + len(ops)]
+                sib = parent["variants"] if parent is not None else s["variants"]
+                nv = self.variant(parent, 9, 9, counter, sib)
+                op = {"op": "add_variant", "parent": parent["uid"] if parent is not None else None, "variant": nv}
+            elif k == "del_variant":
+                v, p = r.choice(vs)
+                op = {"op": "del_variant", "parent": p["uid"] if p is not None else None, "key": v["key"]}
+            else:
+                tops = s["variants"]
+                v = r.choice(tops)
+                op = {"op": "add_arch", "uid": v["uid"], "arch": self.nxt("arch", ARCH_BOUNDARY)}
+            apply_ops_spec(s, [op])
+            ops.append(op)
+        return ops, s
 
 
 def gen(rng, tier="quick"):
@@ -221,7 +381,9 @@ def _build_steps(spec, raw, style):
         for s in vs:
             v = Variant(ci)
             v.id, v.uid, v.name, v.type = s["id"], s["uid"], s["name"], s["type"]
-            if st["arches"] == "assign":
+            if not isinstance(s["arches"], list):
+                v.arches = s["arches"]                       # corrupting streams: a value of another type
+            elif st["arches"] == "assign":
                 v.arches = set(s["arches"])
             elif st["arches"] == "add":
                 for a in s["arches"]:
@@ -295,7 +457,7 @@ def same_description(spec, snapshot, force_layered=False):
     a, b = canon(strip_parent(spec)), canon(strip_parent(snapshot))
     for side in (a, b):
         for v, _ in walk(side):
-            v["paths"] = dict((c, t) for c, t in v["paths"].items() if t)
+            v["paths"] = dict((c, t) for c, t in v["paths"].items() if t and c in CATEGORIES)   # other attributes are no categories
             if force_layered and v["type"] == LP and v["release"] is not None:
                 v["release"]["is_layered"] = True
     return None if a == b else (b, a)
@@ -314,11 +476,17 @@ def snap(ci):
     def rel_or_none(d, blank):
         return None if d == blank else d
 
+    def arch_list(x):
+        try:
+            return sorted(x)
+        except TypeError:
+            return x if isinstance(x, (type(None), bool, int, float, str, list, dict)) else repr(x)   # corrupting streams
+
     def sv(key, v):
         paths = {}
         for cat in v.paths._fields:
             paths[cat] = dict(getattr(v.paths, cat))
-        return {"key": key, "id": v.id, "uid": v.uid, "name": v.name, "type": v.type, "arches": sorted(v.arches),
+        return {"key": key, "id": v.id, "uid": v.uid, "name": v.name, "type": v.type, "arches": arch_list(v.arches),
                 "parent": (v.parent.uid if v.parent is not None else None), "paths": paths,
                 "release": rel_or_none(_rel(v.release, True), {"name": None, "short": None, "version": None, "type": None,
                                                                 "is_layered": True, "internal": False}),
@@ -330,6 +498,109 @@ def snap(ci):
             "variants": [sv(k, v) for k, v in ci.variants.variants.items()]}
 
 
+def _find_spec(spec, uid):
+    for v, _ in walk(spec):
+        if v["uid"] == uid:
+            return v
+    raise KeyError(uid)
+
+
+def apply_ops_spec(spec, ops):
+    """the effect of a list of public mutations (see Gen.history) on a description, in place"""
+    for op in ops:
+        k = op["op"]
+        if k == "set_label":
+            spec["compose"]["label"], spec["compose"]["final"] = op["label"], op["final"]
+        elif k == "set_path":
+            _find_spec(spec, op["uid"])["paths"].setdefault(op["cat"], {})[op["arch"]] = op["path"]
+        elif k == "del_path":
+            del _find_spec(spec, op["uid"])["paths"][op["cat"]][op["arch"]]
+        elif k == "add_variant":
+            (spec["variants"] if op["parent"] is None else _find_spec(spec, op["parent"])["variants"]).append(copy.deepcopy(op["variant"]))
+        elif k == "del_variant":
+            lst = spec["variants"] if op["parent"] is None else _find_spec(spec, op["parent"])["variants"]
+            lst[:] = [v for v in lst if v["key"] != op["key"]]
+        elif k == "add_arch":
+            v = _find_spec(spec, op["uid"])
+            if op["arch"] not in v["arches"]:
+                v["arches"].append(op["arch"])
+    return spec
+
+
+def find_variant(ci, uid):
+    """the variant object with this UID (depth-first through the public dicts)"""
+    def rec(c):
+        for v in c.variants.values():
+            if v.uid == uid:
+                return v
+            r = rec(v)
+            if r is not None:
+                return r
+        return None
+    return rec(ci.variants)
+
+
+def apply_ops(ci, ops):
+    """the same mutations on a ComposeInfo object, through the public API only"""
+    from productmd.composeinfo import Variant
+    for op in ops:
+        k = op["op"]
+        if k == "set_label":
+            ci.compose.label, ci.compose.final = op["label"], op["final"]
+        elif k == "set_path":
+            getattr(find_variant(ci, op["uid"]).paths, op["cat"])[op["arch"]] = op["path"]
+        elif k == "del_path":
+            del getattr(find_variant(ci, op["uid"]).paths, op["cat"])[op["arch"]]
+        elif k == "add_variant":
+            s = op["variant"]
+            container = ci.variants if op["parent"] is None else find_variant(ci, op["parent"])
+            v = Variant(ci)
+            v.id, v.uid, v.name, v.type = s["id"], s["uid"], s["name"], s["type"]
+            v.arches.update(s["arches"])
+            for cat, d in s["paths"].items():
+                if not hasattr(v.paths, cat):
+                    setattr(v.paths, cat, {})
+                getattr(v.paths, cat).update(d)
+            if s.get("release") is not None:
+                r = s["release"]
+                v.release.name, v.release.short, v.release.version, v.release.type = r["name"], r["short"], r["version"], r["type"]
+                v.release.is_layered, v.release.internal = r["is_layered"], r["internal"]
+            container.add(v)
+        elif k == "del_variant":
+            container = ci.variants if op["parent"] is None else find_variant(ci, op["parent"])
+            del container[op["key"]]
+        elif k == "add_arch":
+            find_variant(ci, op["uid"]).arches.add(op["arch"])
+    return ci
+
+
+def probe(ci):
+    """every public read-only entry point of the composeinfo objects; none of them may change the description"""
+    res = []
+
+    def call(f):
+        try:
+            res.append(repr(f())[:60])
+        except Exception as e:  # noqa
+            res.append(type(e).__name__)
+    call(lambda: str(ci)); call(lambda: ci.release_id); call(lambda: ci.get_release_id(major_version=True)); call(ci.create_compose_id)
+    call(lambda: ci.compose.is_ga); call(lambda: ci.compose.full_label); call(lambda: ci.compose.label_major_version)
+    call(lambda: ci.compose.type_suffix); call(lambda: repr(ci.compose)); call(lambda: ci.release.major_version); call(lambda: ci.release.minor_version)
+    call(lambda: ci.release.type_suffix); call(lambda: ci.base_product.major_version); call(lambda: str(ci.release)); call(lambda: repr(ci.release))
+    call(lambda: ci.get_variants()); call(lambda: ci.get_variants(recursive=True)); call(lambda: ci.get_variants(arch="x86_64", types=["variant", "optional"], recursive=True))
+    call(lambda: len(ci.variants)); call(lambda: list(ci.variants)); call(lambda: ci.variants._get_all_parents())
+
+    def rec(c):
+        for key in list(c.variants):
+            v = c.variants[key]
+            call(lambda: ci[v.uid]); call(lambda: c[key]); call(lambda: v.compose_id); call(lambda: str(v)); call(lambda: repr(v)); call(lambda: repr(v.paths))
+            call(lambda: v.get_variants(types=["self"], recursive=True)); call(lambda: len(v)); call(lambda: list(v)); call(lambda: v.validate())
+            rec(v)
+    rec(ci.variants)
+    call(ci.validate); call(ci.compose.validate); call(ci.release.validate); call(ci.header.validate); call(lambda: ci.header.version_tuple)
+    return res
+
+
 # ------------------------------------------------------------------------------------------------- oracle side
 def norm(spec):
     """the documented normal form of a description: what must come back from a write/read cycle"""
@@ -338,7 +609,8 @@ def norm(spec):
     if not c["label"]:
         c["label"] = None
         c["final"] = False                       # 'final' is only stored next to a label
-    s["release"]["type"] = s["release"]["type"].lower()      # case-folded (no-op on every writable type)
+    if isinstance(s["release"]["type"], str):
+        s["release"]["type"] = s["release"]["type"].lower()  # case-folded (no-op on every writable type)
     if not s["release"]["is_layered"]:
         s["base_product"] = None                  # base product only when layered
 
@@ -346,12 +618,13 @@ def norm(spec):
         arches = sorted(set(v["arches"]))
         paths = {}
         for cat in CATEGORIES:
-            src = v["paths"].get(cat, {})
+            src = v["paths"].get(cat) or {}
             paths[cat] = dict((a, src[a]) for a in arches if src.get(a))       # empty / foreign-arch paths are not stored
         rel = None
         if v["type"] == LP and v["release"] is not None:
             rel = dict(v["release"], is_layered=True)
-            rel["type"] = rel["type"].lower()
+            if isinstance(rel["type"], str):
+                rel["type"] = rel["type"].lower()
         out = {"key": v["id"], "id": v["id"], "uid": v["uid"], "name": v["name"], "type": v["type"], "arches": arches,
                "parent": parent, "paths": paths, "release": rel}
         out["variants"] = sorted((nv(k, v["uid"]) for k in v["variants"]), key=lambda x: x["id"])
